@@ -16,7 +16,7 @@
    state (13 inputs), found by reading addVote; every step is replayed on the real
    consensus.State (see the report / fixes/F70). *)
 From Coq Require Import List ZArith NArith Bool Lia.
-From TM Require Import C02.Model C03.Round C03.SyncNet.
+From TM Require Import C02.Model C03.Round C03.SyncNet C03.UnfixedF83.
 From TM Require C03.Sync C03.SyncWeak.
 Import ListNotations.
 Open Scope Z_scope.
@@ -118,7 +118,8 @@ Proof. vm_compute. repeat split. Qed.
 
 (* ---------------------------------------------------------------- lock round above valid round
 
-   Sync.Inv's clause inv_lock_valid (valid round >= lock round) is NOT an invariant of the code:
+   (BEFORE the repair of F83; the statement is about run_u83, the unrepaired re-lock.)
+   Sync.Inv's clause inv_lock_valid (valid round >= lock round) was NOT an invariant of the code:
    the machine locked on X in round 0 (valid block X, valid round 0) learns the polka for X of
    round 1 without holding round 1's proposal; enterPrecommit re-locks X with LockedRound = 1,
    the valid round stays 0.  The weaker clause of SyncWeak.Inv' (or: valid block = locked block)
@@ -132,7 +133,7 @@ Definition w_prefix2 : list input :=
 
 Theorem lock_above_valid_reachable :
   exists (E : env) (ins : list input),
-    let s := fst (run E (init_state E 1 None) ins) in
+    let s := fst (run_u83 E (init_state E 1 None) ins) in
     let n := abs 10 s in
     let pol : list Sync.polka := [(0, Some 5%N); (1, Some 5%N)] in
     cs_halted s = false /\
@@ -141,7 +142,7 @@ Theorem lock_above_valid_reachable :
     ~ Sync.Inv pol [n] /\ SyncWeak.Inv' pol [n].
 Proof.
   exists w_env, w_prefix2. cbv zeta.
-  assert (En : abs 10 (fst (run w_env (init_state w_env 1 None) w_prefix2)) =
+  assert (En : abs 10 (fst (run_u83 w_env (init_state w_env 1 None) w_prefix2)) =
                {| Sync.n_power := 10; Sync.n_lock := Some (1, 5%N); Sync.n_valid := Some (0, 5%N) |})
     by (vm_compute; reflexivity).
   rewrite En.
@@ -158,3 +159,10 @@ Proof.
     + intros rr x y [H1|[H1|[]]] [H2|[H2|[]]]; congruence.
 Qed.
 
+
+(* since the repair of F83 (the re-lock also moves the valid block) the same run ends with valid
+   round 1 on the model of record: the witness above is stated on the unrepaired re-lock (run_u83) *)
+Example lock_above_valid_repaired :
+  abs 10 (fst (run w_env (init_state w_env 1 None) w_prefix2)) =
+  {| Sync.n_power := 10; Sync.n_lock := Some (1, 5%N); Sync.n_valid := Some (1, 5%N) |}.
+Proof. vm_compute. reflexivity. Qed.
